@@ -96,6 +96,14 @@ public:
         ++self->unknownRel;
         Event e{'R', 0, -2, 0}; self->events.push_back(e); if (self->onEvent) self->onEvent(e);
     }
+    // the older entry points that still exist (declared deprecated): the same tables, the same callbacks
+    gr_face *make_with_seg_cache(unsigned opts) {
+        gr_face_ops ops = {sizeof(gr_face_ops), &TableFace::get_table, noRelease ? 0 : &TableFace::release_table};
+#pragma GCC diagnostic push
+#pragma GCC diagnostic ignored "-Wdeprecated-declarations"
+        return gr_make_face_with_seg_cache_and_ops(this, &ops, 1000, opts);
+#pragma GCC diagnostic pop
+    }
     gr_face *make(unsigned opts) {
         gr_face_ops ops = {sizeof(gr_face_ops), &TableFace::get_table, noRelease ? 0 : &TableFace::release_table};
         return gr_make_face_with_ops(this, &ops, opts);
